@@ -219,7 +219,16 @@ func ruleR26(c *Ctx) {
 				c.r.ok("R26", key, m.pos(node.Pos()), v.Name()+" is known to refer to memory allocated by the library (copy) on every path", props...)
 				return
 			}
-			// a parameter of a helper (newLeaf(key, …)): the obligation moves to its call sites
+			// a parameter of a helper (newLeaf(key, …)) – or a local that is only ever a reslice of
+			// one: the obligation moves to the call sites of the helper
+			if src := resliceSource(info, u.Body, v); src != nil && src != v && !isTreeMethod(u) && !assignedAnywhere(info, u.Body, src) {
+				if pi := paramIndex(u, src); pi >= 0 {
+					if okAll, nCalls, _ := paramFreshAtCalls(u, pi); okAll && nCalls > 0 {
+						c.r.ok("R26", key, m.pos(node.Pos()), fmt.Sprintf("%s is a reslice of parameter %s: every one of the %d call sites in byte-keyed trees passes a copy made by the library", v.Name(), src.Name(), nCalls), props...)
+						return
+					}
+				}
+			}
 			if pi := paramIndex(u, v); pi >= 0 && !isTreeMethod(u) && !assignedAnywhere(info, u.Body, v) {
 				if okAll, nCalls, _ := paramFreshAtCalls(u, pi); okAll && nCalls > 0 {
 					c.r.ok("R26", key, m.pos(node.Pos()), fmt.Sprintf("parameter %s: every one of the %d call sites in byte-keyed trees passes a copy made by the library", v.Name(), nCalls), props...)
@@ -690,4 +699,42 @@ func assignedAnywhere(info *types.Info, body ast.Node, v *types.Var) bool {
 		return !found
 	})
 	return found
+}
+
+
+// resliceSource: the one variable of which every assignment to v is a reslice or plain copy
+// (nil if v is assigned anything else, or from several variables).
+func resliceSource(info *types.Info, body ast.Node, v *types.Var) *types.Var {
+	var from *types.Var
+	consistent, any := true, false
+	ast.Inspect(body, func(z ast.Node) bool {
+		as, ok := z.(*ast.AssignStmt)
+		if !ok || len(as.Lhs) != len(as.Rhs) {
+			return true
+		}
+		for i, l := range as.Lhs {
+			if identVar(info, l) != v {
+				continue
+			}
+			any = true
+			e := ast.Unparen(as.Rhs[i])
+			for {
+				if se, ok := e.(*ast.SliceExpr); ok {
+					e = ast.Unparen(se.X)
+					continue
+				}
+				break
+			}
+			pv := identVar(info, e)
+			if pv == nil || (from != nil && from != pv) {
+				consistent = false
+			}
+			from = pv
+		}
+		return true
+	})
+	if !any || !consistent {
+		return nil
+	}
+	return from
 }
